@@ -523,6 +523,14 @@ fn c13() -> Property {
             max_steps: 3_000_000,
             cases_per_seed: 1,
             note: "real client ends a session (with or without error) while links are attached; the scripted peer sends echo flows, a transfer, an attach before it answers with its end: nothing may be written on the channel after the local end",
+        },
+        Variant {
+            name: "detach-behind-held-transfers",
+            weight: 1,
+            make: || Box::pin(scen::c13p::run_detach_behind_held_transfers()),
+            max_steps: 3_000_000,
+            cases_per_seed: 1,
+            note: "real client sender (pre-settled) against a scripted receiver whose session window is 1-3: the application sends more than fits and closes / detaches / drops the link; the peer reopens its window by exactly the number of transfers held back and sends nothing more: the held transfers and then the detach must be written",
         }],
         quick_runs: 6_000,
         thorough_runs: 300_000,
@@ -532,7 +540,7 @@ fn c13() -> Property {
         ],
         real_components: REAL.to_vec(),
         stub_components: STUB.to_vec(),
-        expected_probes: vec!["duplicate-name-attempted", "detach-error-delivered", "attach-refusal-reported", "peer-detach-reported", "sibling-link-survived", "connection-survived", "peer-detach-answered-in-kind"],
+        expected_probes: vec!["duplicate-name-attempted", "detach-error-delivered", "attach-refusal-reported", "peer-detach-reported", "sibling-link-survived", "connection-survived", "peer-detach-answered-in-kind", "detach-flushed-behind-held-transfers"],
     }
 }
 
